@@ -6,7 +6,7 @@ META = {
              'polling round; also free-running and single-task runs) and serial; every task emits unique tokens '
              'through labtech.logger (info/warning/error) and, on process backends, through print/sys.std*.write in a '
              'planned pattern (no flush, one flush, several flushes, several lines per flush, write without newline, '
-             'stderr, thousands of lines in the thorough tier); in 45 % of the runs some tasks fail AFTER emitting (ValueError / SystemExit / unpicklable exception, continue_on_failure=True). A logging.Handler on labtech.logger in the caller '
+             'stderr, thousands of lines in one record (thorough tier), thousands of separate records from one task (2-4 % of the runs)); in 45 % of the runs some tasks fail AFTER emitting (ValueError / SystemExit / unpicklable exception, continue_on_failure=True). A logging.Handler on labtech.logger in the caller '
              'collects records; it is read at the moment run_tasks returns. Oracle: every emitted token occurs '
              'exactly once over all received records. Distinct by (DAG, patterns, backend, schedule seed); '
              'non-trivial when the task finishing last emits something or a task flushes more than once.'),
@@ -33,6 +33,14 @@ def gen_pattern(rng, name, process_backend, big=False):
         return t
     for _ in range(rng.randrange(0, 3)):
         ops.append(['log', rng.choice(['info', 'warning', 'error']), tok('logger')])
+    if big == 'records':
+        # thousands of separate RECORDS (not lines of one record) between two drains of the log queue
+        for _ in range(6000):
+            ops.append(['log', 'info', tok('logger-flood')])
+        if process_backend:
+            for _ in range(600):
+                ops += [['print', 'out', tok('stdout-flood')], ['flush', 'out']]
+        return ops, toks
     if process_backend:
         kind = rng.choice(['none', 'noflush', 'oneflush', 'multiflush', 'multiline', 'nonewline', 'stderr', 'mixed']
                           + (['huge'] if big else []))
@@ -84,8 +92,9 @@ def one(rep, rng, j):
     tokens = {}
     plan = {}
     big = rep.tier == 'thorough' and rng.random() < 0.05
+    flood = rng.random() < (0.02 if rep.tier == 'quick' else 0.04)
     for n in spec['tasks']:
-        ops, toks = gen_pattern(rng, n, proc, big)
+        ops, toks = gen_pattern(rng, n, proc, 'records' if (flood and n == list(spec['tasks'])[0]) else big)
         plan[n] = {'logs': ops}
         tokens.update({t: (n, ch) for t, ch in toks.items()})
     scn['task_plan'] = plan
@@ -124,18 +133,23 @@ def one(rep, rng, j):
         return n in E and not any(d in tainted for d in flat_deps(spec, n))
     if raised_lab_error:
         rep.count('runs_left_by_LabError')
+    import re as _re
+    from collections import Counter as _Counter
+    occ = _Counter(_re.findall(r'TOK-[A-Za-z0-9_]+-\d+-[0-9a-f]{8}-END', text))
+    if flood:
+        rep.count('runs_with_thousands_of_records')
     for t, (n, ch) in tokens.items():
         if not emits(n):
             continue        # never got to its logging statements
         if raised_lab_error and n not in yields:
             # run_tasks left by raising: only the tasks whose completion it had been handed count; the rest may
             # still be running (but nothing may be duplicated)
-            if text.count(t) > 1:
-                bad.setdefault('duplicated:' + ch, f'token of {n} received {text.count(t)} times')
+            if occ.get(t, 0) > 1:
+                bad.setdefault('duplicated:' + ch, f'token of {n} received {occ.get(t, 0)} times')
             continue
         if n in (scn.get('failing') or {}):
             rep.count('tokens_of_failing_tasks')
-        k = text.count(t)
+        k = occ.get(t, 0)
         rep.count('tokens_checked')
         rep.count('tokens_' + ch.split('-')[0])
         if k != 1:
